@@ -194,6 +194,121 @@ func endToEnd(c *lib.Ctx) {
 		done++
 	}
 	c.Note("end to end: %d `plz query alltargets` invocations over a generated repository (7 packages, 1 subrepo), from the root and from %s", done, "pkg, pkg/q, other")
+	endToEndTests(c, plz)
+}
+
+// endToEndTests (round-2 follow-up): `plz test` over a generated repository in which an included test DEPENDS on a test
+// that an --exclude build pattern covers.  The excluded test has to be built; it must not be run.  Which tests ran is
+// read off a file every test appends its name to (the excluded ones would also fail the run).
+func endToEndTests(c *lib.Ctx, plz string) {
+	base, err := os.MkdirTemp("", "c36-e2e-test-")
+	if err != nil {
+		panic(err)
+	}
+	defer os.RemoveAll(base)
+	g := []P{
+		{Pkg: "pkg", Targets: []T{{Name: "a_test", Labels: []string{}, Test: true}, {Name: "b_test", Labels: []string{"flaky_dep"}, Test: true}, {Name: "c_test", Labels: []string{}, Test: true}}},
+		{Pkg: "pkg/sub", Targets: []T{{Name: "d_test", Labels: []string{}, Test: true}}},
+	}
+	deps := []D{{L{"", "pkg", "a_test"}, []L{{"", "pkg", "b_test"}}}, {L{"", "pkg/sub", "d_test"}, []L{{"", "pkg", "c_test"}}}}
+	depsOf := map[L][]string{}
+	for _, d := range deps {
+		for _, to := range d.To {
+			depsOf[d.From] = append(depsOf[d.From], toLabel(to).String())
+		}
+	}
+	ranFile := filepath.Join(base, "ran.txt")
+	cfg := "[build]\npath = /usr/local/bin:/usr/bin:/bin\n[cache]\ndir = " + filepath.Join(base, ".plz-cache") + "\n[display]\nupdatetitle = false\n"
+	if err := os.WriteFile(filepath.Join(base, ".plzconfig"), []byte(cfg), 0o644); err != nil {
+		panic(err)
+	}
+	for _, p := range g {
+		var b strings.Builder
+		for _, t := range p.Targets {
+			status := "true"
+			if t.Name == "b_test" {
+				status = "exit 1" // running it fails the run
+			}
+			fmt.Fprintf(&b, "gentest(name = %q, test_cmd = \"echo %s:%s >> %s; %s\", no_test_output = True, labels = %s, deps = %s, visibility = [\"PUBLIC\"])\n",
+				t.Name, p.Pkg, t.Name, ranFile, status, pyStrs(t.Labels), pyStrs(depsOf[L{"", p.Pkg, t.Name}]))
+		}
+		d := filepath.Join(base, p.Pkg)
+		if err := os.MkdirAll(d, 0o755); err != nil {
+			panic(err)
+		}
+		if err := os.WriteFile(filepath.Join(d, "BUILD"), []byte(b.String()), 0o644); err != nil {
+			panic(err)
+		}
+	}
+	all := func(pkg string) L { return L{"", pkg, "all"} }
+	runs := []e2eRun{
+		// the seeded mutation r2-m2, exactly
+		{"", []string{"//pkg:all"}, []L{all("pkg")}, nil, []string{"//pkg:b_test"}},
+		// the excluded dependency lives in another requested package; relative pattern from a sub-directory
+		{"pkg", []string{"//pkg/..."}, []L{{"", "pkg", "..."}}, nil, []string{":b_test", "//pkg:c_test"}},
+		// control: the same by label
+		{"", []string{"//pkg:all", "//pkg/sub:all"}, []L{all("pkg"), all("pkg/sub")}, nil, []string{"flaky_dep"}},
+	}
+	if !c.Thor {
+		runs = runs[:2]
+	}
+	done := 0
+	for _, r := range runs {
+		os.Remove(ranFile)
+		args := append([]string{"test", "--rerun"}, r.labels...)
+		for _, e := range r.exclude {
+			args = append(args, "--exclude", e)
+		}
+		args = append(args, "-p", "-v", "1")
+		cmd := exec.Command(plz, args...)
+		cmd.Dir = filepath.Join(base, r.cwd)
+		cmd.Env = []string{"PATH=/usr/local/bin:/usr/bin:/bin", "HOME=" + base, "USER=verif"}
+		var output strings.Builder
+		cmd.Stdout, cmd.Stderr = &output, &output
+		if err := cmd.Start(); err != nil {
+			panic(err)
+		}
+		timer := time.AfterFunc(240*time.Second, func() { cmd.Process.Kill() })
+		runErr := cmd.Wait()
+		timer.Stop()
+		ran := map[L]bool{}
+		data, _ := os.ReadFile(ranFile)
+		for _, line := range strings.Fields(string(data)) {
+			if i := strings.LastIndexByte(line, ':'); i >= 0 {
+				ran[L{"", line[:i], line[i+1:]}] = true
+			}
+		}
+		got := []L{}
+		for _, p := range g {
+			for _, t := range p.Targets {
+				if ran[L{"", p.Pkg, t.Name}] {
+					got = append(got, L{"", p.Pkg, t.Name})
+				}
+			}
+		}
+		// the oracle is told the :all labels the typed `...` resolves to
+		in := input{Kind: "e2e", Cur: r.cwd, Graph: g, Deps: deps, Include: []string{}, Exclude: r.exclude, NeedTests: true}
+		for _, l := range r.requested {
+			if l.Name == "..." {
+				for _, p := range g {
+					if p.Pkg == l.Pkg || strings.HasPrefix(p.Pkg, l.Pkg+"/") {
+						in.Labels = append(in.Labels, all(p.Pkg))
+					}
+				}
+			} else {
+				in.Labels = append(in.Labels, l)
+			}
+		}
+		checkOriginal(c, in, got, true)
+		js := map[string]any{"kind": "e2e", "started_in_package": r.cwd, "args": args, "tests_run": got, "output": lastLines(output.String(), 6)}
+		if want := wantOriginal(in, true); runErr != nil && sameLs(got, want) {
+			c.Fail("plz-test-failed", fmt.Sprintf("(cwd=%s) plz %s: %v: %s", r.cwd, strings.Join(args, " "), runErr, lastLines(output.String(), 3)), js)
+		}
+		in.Out = got
+		c.Eval(in, fmt.Sprint("e2e-test", r.cwd, args), len(got) > 0)
+		done++
+	}
+	c.Note("end to end: %d `plz test` invocations over a generated repository in which an included test depends on a test covered by an --exclude build pattern", done)
 }
 
 func lastLines(x string, n int) string {
